@@ -205,6 +205,18 @@ static void do_ext(uint64_t v) {
                 cur_off, "fwd", w, -1, val);
     }
 
+    /* 128-bit fixed-width writer / reader carrying a 64-bit value */
+    for (int w = bytewidth(v); w <= 16; w++) {
+        d = win_prep();
+        varintExternalPutFixedWidthBig(d, (__uint128_t)v, (varintWidth)w);
+        __uint128_t big = varintBigExternalGet(d, (varintWidth)w);
+        val = (uint64_t)big;
+        if ((uint64_t)(big >> 64) != 0) {
+            val = ~v; /* high half must come back zero */
+        }
+        rt_emit("extbig", "PutFixedWidthBig", "BigExternalGet", v, w, cur_off, "fwd", w, -1, val);
+    }
+
     /* big endian */
     d = win_prep();
     pret = (int)varintExternalBigEndianPut(d, v);
